@@ -72,15 +72,18 @@ theorem C20_empty (opts : List Opt) (cmd : List (List UInt8)) (script : List Out
   · exact Or.inr rfl
   · split
     · exact Or.inr rfl
-    · simp only []
-      split
+    · split
       · exact Or.inr rfl
-      · left
-        simp [hd, readInput, bdAll, bdFrom, processInput, hrep]
+      · simp only []
+        split
+        · exact Or.inr rfl
+        · left
+          simp [hd, readInput, bdAll, bdFrom, processInput, hrep]
 
 /-- …and it is status 0 whenever the options are acceptable and the command itself fits. -/
 theorem C20_empty_ok (opts : List Opt) (cmd : List (List UInt8)) (script : List Outcome) (sys : Nat)
     (hrep : (normalize opts).replace.isSome = true)
+    (hutf : cmd.any (fun w => !FuModel.Utf8.validUtf8 w) = false)
     (hdup : dupOpts opts = false)
     (hpos : opts.any (fun | .n 0 => true | .l 0 => true | .s 0 => true | _ => false) = false)
     (hfit : (initState ⟨(normalize opts).n, (normalize opts).l,
@@ -90,17 +93,21 @@ theorem C20_empty_ok (opts : List Opt) (cmd : List (List UInt8)) (script : List 
   unfold xargsMain
   split
   · rename_i h
-    rw [hdup] at h
+    rw [hutf] at h
     exact absurd h (by simp)
   · split
     · rename_i h
-      exact absurd (hpos.symm.trans h) (by simp)
-    · simp only []
-      split
-      · rename_i hnone
-        obtain ⟨init, hinit⟩ := Option.isSome_iff_exists.mp hfit
-        exact absurd (hnone.symm.trans hinit) (by simp)
-      · simp [hd, readInput, bdAll, bdFrom, processInput, hrep]
+      rw [hdup] at h
+      exact absurd h (by simp)
+    · split
+      · rename_i h
+        exact absurd (hpos.symm.trans h) (by simp)
+      · simp only []
+        split
+        · rename_i hnone
+          obtain ⟨init, hinit⟩ := Option.isSome_iff_exists.mp hfit
+          exact absurd (hnone.symm.trans hinit) (by simp)
+        · simp [hd, readInput, bdAll, bdFrom, processInput, hrep]
 
 /-- Mode selection, replace last: if a replace option (-I, -i, --replace) is given after the last
     -n and after the last -L, the run is in replace mode (one argument per command, no line limit). -/
